@@ -240,6 +240,7 @@ fn generate(rng: &mut Rng) -> C15Sc {
             stop_at_ns: None,
             stop_before: false,
             yields_before_stop: 0,
+            relisten: false,
             cap_ns: t + secs(60),
         },
         meta,
